@@ -407,7 +407,63 @@ func c10ChildOptions(c *C) {
 	c.Nontrivial(fmt.Sprint("childopts", which, tb, ls))
 }
 
+// c10ManyBlockExecutions: blocks executed very many times within one execution (hooks in a table of 1001-1600 rows): empty
+// and non-empty definitions, inherited, overridden by an empty or a non-empty definition, with and without block.Super.
+// The number of block executions is not a nesting depth.
+func c10ManyBlockExecutions(c *C) {
+	r := c.R
+	n := 1001 + r.Intn(600)
+	rows := make([]int, n)
+	baseHook := r.Pick([]string{"", "h"})
+	baseRow := r.Pick([]string{"", "r", "{{ i }}"})
+	files := map[string]string{"/base.tpl": "{% for i in rows %}{% block hook %}" + baseHook + "{% endblock %}{% block row %}" + baseRow + "{% endblock %};{% endfor %}{% block tail %}t{% endblock %}"}
+	childHook := r.Pick([]string{"-", "", "H", "{{ block.Super }}", "{{ block.Super }}{{ block.Super }}"})
+	childRow := r.Pick([]string{"-", "", "R", "<{{ block.Super }}>"})
+	child := `{% extends "/base.tpl" %}`
+	if childHook != "-" {
+		child += "{% block hook %}" + childHook + "{% endblock %}"
+	}
+	if childRow != "-" {
+		child += "{% block row %}" + childRow + "{% endblock %}"
+	}
+	files["/child.tpl"] = child
+	files["/grandchild.tpl"] = `{% extends "/child.tpl" %}{% block tail %}{% endblock %}`
+	res := func(over, base string) string {
+		if over == "-" {
+			return base
+		}
+		return strings.ReplaceAll(over, "{{ block.Super }}", base)
+	}
+	var want, wantBase strings.Builder
+	for i := range rows {
+		rows[i] = i
+		b := strings.ReplaceAll(baseRow, "{{ i }}", fmt.Sprint(i))
+		want.WriteString(res(childHook, baseHook) + res(childRow, b) + ";")
+		wantBase.WriteString(baseHook + b + ";")
+	}
+	set, _ := newSet(files)
+	for _, k := range []struct{ file, want string }{{"/child.tpl", want.String() + "t"}, {"/base.tpl", wantBase.String() + "t"}, {"/grandchild.tpl", want.String()}} {
+		tpl, err := set.FromFile(k.file)
+		var out string
+		if err == nil {
+			out, err = execSpread(tpl, pongo2.Context{"rows": rows}, uint64(c.Idx))
+		}
+		c.Eval(1)
+		if err != nil || out != k.want {
+			c.Fail("inheritance-mismatch", D{"files": files, "rendered": k.file, "rows": n, "output_len": len(out), "expected_len": len(k.want), "output_start": q(truncStr(out, 120)), "expected_start": q(truncStr(k.want, 120)), "error": errStr(err),
+				"why": "three blocks per row, executed one after the other (never nested more than two deep)"})
+			return
+		}
+	}
+	c.Cover("many_block_executions_in_one_execution")
+	c.Nontrivial(fmt.Sprintf("manyblocks:%d:%s:%s:%s:%s", n, baseHook, baseRow, childHook, childRow))
+}
+
 func c10Run(c *C) {
+	if c.Idx%500 == 251 {
+		c10ManyBlockExecutions(c)
+		return
+	}
 	if c.Idx%20 == 17 {
 		c10ChildOptions(c)
 		return
